@@ -55,6 +55,15 @@ macro_rules! routes {
                 let parsed = guarded(|| text.parse::<$norm>())?.map_err(|e| format!("parse::<norm>({}): {:?}", text, e))?;
                 same(&parsed, "str::parse::<normalising type>")?;
             }
+            // route 6b (long types): when the run-collapsed block hash 2 fits the short form, parsing the raw
+            // text directly into the SHORT normalizing type must give the narrowed normalization
+            if <$raw>::IS_LONG_FORM && n2.len() <= 32 && !crate::c04::STRICT {
+                let short = guarded(|| text.parse::<FuzzyHash>())?
+                    .map_err(|e| format!("parse::<FuzzyHash>({}) fails ({:?}) although the run-collapsed hash fits the short form", text, e))?;
+                if short.block_hash_1() != &n1[..] || short.block_hash_2() != &n2[..] || short.log_block_size() != log || !short.is_valid() {
+                    return Err(format!("parse::<FuzzyHash>({}) gives {}", text, short));
+                }
+            }
             // route 7 / 8: normalized part of a dual hash (from object, from text)
             let d = guarded(|| <$dual>::from_raw_form(&raw))?;
             same(d.as_normalized(), "dual.from_raw_form().as_normalized()")?;
@@ -152,7 +161,7 @@ pub fn run(ctx: &Ctx) -> Report {
     rep.set("exhaustive", true);
     rep.set(
         "rule",
-        "every raw hash of the corpus HASH (runs of every length 1..64 at every position, adjacent runs of different symbols, runs touching both ends, capacity lengths, all strings <=5 over {A,B,/}) is normalised through every route: normalize(), normalize_in_place(), clone_normalized(), From/Into, from_raw_form, str::parse into the normalising type, the normalised part of a dual hash built from the object, parsed from the text and of a previously used dual object re-initialised with init_from_raw_form (three kinds of dirt); each result must be valid and full_eq the object built from the reference run collapsing; idempotence; is_normalized <=> unchanged.  Cases are distinct raw hashes; all non-trivial.",
+        "every raw hash of the corpus HASH (runs of every length 1..64 at every position, adjacent runs of different symbols, runs touching both ends, capacity lengths, all strings <=5 over {A,B,/}) is normalised through every route: normalize(), normalize_in_place(), clone_normalized(), From/Into, from_raw_form, str::parse into the normalising type (for long raw hashes also into the short normalising type whenever the run-collapsed block hash 2 fits it), the normalised part of a dual hash built from the object, parsed from the text and of a previously used dual object re-initialised with init_from_raw_form (three kinds of dirt); each result must be valid and full_eq the object built from the reference run collapsing; idempotence; is_normalized <=> unchanged.  Cases are distinct raw hashes; all non-trivial.",
     );
     rep
 }
